@@ -338,6 +338,7 @@ func runC11(col *Collector, tier string, seed int64) {
 	}
 	for k := 0; k < 3; k++ {
 		sharedProducerParallelCase(col, 3+k)
+		parallelProducersStressCase(col, 4+4*k, 25)
 	}
 	_ = unicode.IsUpper
 }
@@ -393,6 +394,57 @@ func sharedProducerCase(col *Collector, uses int) {
 
 // the same producer task used by a first stage, then by two stages running side by side (their writes interleave in
 // time), then a consumer: what is captured and handed over is the complete output of ONE execution, never a mixture
+// k producers with no dependency between them finish at (nearly) the same moment, round after round: a stage that
+// depends on all of them sees the output of every one (publishing one producer's output must not lose another's)
+func parallelProducersStressCase(col *Collector, k, rounds int) {
+	dir := newScratchDir("c11s")
+	defer os.RemoveAll(dir)
+	cs := Case{Tags: []string{"parallel-producers"}, NonTrivial: true,
+		Replay: fmt.Sprintf("%d producers (builtin echo, no dependency between them) and a consumer depending on all of them, %d rounds on fresh runners", k, rounds)}
+	lost := ""
+	for round := 0; round < rounds && lost == "" && cs.Fail == ""; round++ {
+		var stages []*scheduler.Stage
+		var deps []string
+		var show strings.Builder
+		for i := 0; i < k; i++ {
+			t := task.FromCommands(fmt.Sprintf("echo out-%d-%d", i, round))
+			t.Name = fmt.Sprintf("prod%d", i)
+			stages = append(stages, &scheduler.Stage{Name: t.Name, Task: t})
+			deps = append(deps, t.Name)
+			fmt.Fprintf(&show, "echo \"%d=[$PROD%d_OUTPUT]\" >> %s; ", i, i, filepath.Join(dir, "seen"))
+		}
+		c := task.FromCommands(strings.TrimSuffix(show.String(), "; "))
+		c.Name = "consumer"
+		stages = append(stages, &scheduler.Stage{Name: "consumer", Task: c, DependsOn: deps})
+		g, err := scheduler.NewExecutionGraph(stages...)
+		if err != nil {
+			cs.Fail, cs.Sig = err.Error(), "c11-build"
+			break
+		}
+		r, _ := runner.NewTaskRunner()
+		r.Stdout, r.Stderr = devNull{}, devNull{}
+		sd := scheduler.NewScheduler(r)
+		sd.VerifSetPause(0)
+		os.Remove(filepath.Join(dir, "seen"))
+		if err := sd.Schedule(g); err != nil {
+			cs.Fail, cs.Sig = "pipeline failed: "+err.Error(), "c11-run"
+			break
+		}
+		seen, _ := os.ReadFile(filepath.Join(dir, "seen"))
+		for i := 0; i < k; i++ {
+			if !strings.Contains(string(seen), fmt.Sprintf("%d=[out-%d-%d\n]", i, i, round)) { // the captured output ends with echo's newline
+				lost = fmt.Sprintf("round %d: the consumer saw %q: the output of producer %d (out-%d-%d) is missing", round, strings.ReplaceAll(strings.TrimSpace(string(seen)), "\n", " "), i, i, round)
+				break
+			}
+		}
+	}
+	cs.Impl = "lost=" + lost
+	if lost != "" {
+		cs.Fail, cs.Sig = lost, "c11-handover"
+	}
+	col.Add(cs)
+}
+
 func sharedProducerParallelCase(col *Collector, lines int) {
 	dir := newScratchDir("c11p")
 	defer os.RemoveAll(dir)
